@@ -1,5 +1,6 @@
 """In-memory program representation over the JSON facts."""
 import re
+import os
 from collections import defaultdict
 
 from . import facts
@@ -266,6 +267,11 @@ def callee_name(t):
 
 class Program:
     def __init__(self, config="default", crates=None):
+        # thorough tier: the rule packs are re-run on further build configurations of /repo (see bin/wfcheck)
+        if config == "default" and os.environ.get("WF_CONFIG_OVERRIDE"):
+            config = os.environ["WF_CONFIG_OVERRIDE"]
+            if crates is not None:
+                crates = set(crates) & set(facts.CONFIGS[config][2])
         self.config = config
         raw = facts.load_raw(config, crates)
         self.raw = raw
